@@ -30,11 +30,14 @@ def run(chk):
     m, fn = repo.function('score', 'point_difference_to_imps', rule)
     w, q = floc(repo, 'score', 'point_difference_to_imps', rule)
     chk.explanation = (
-        'Use analysis of the parameter of point_difference_to_imps (only abs(), unary minus and comparisons with integer '
-        'constants / entries of the scale table) => the result is constant between consecutive comparison constants; the '
-        'function is folded (loop unrolled in the analyser, bound 24) on k-1,k,k+1 for every such constant, both signs, 0 '
-        'and +-10**9, and compared with the official WBF scale (constant in this checker). score_to_imp must pass the sum '
-        'of its two parameters. Range, monotonicity and oddness follow from equality with the scale on every interval.')
+        'Abstract interpretation of point_difference_to_imps over intervals of the integers: the function is folded on an '
+        'interval-abstract difference; a comparison with a constant the interval straddles splits the interval there and the parts '
+        'are folded again, so the partition refines itself to the constants the code distinguishes (whatever its shape: loop over the '
+        'table, bisect, chained ifs); an operation that needs the exact value is an analysis error.  On each of the resulting intervals '
+        '(50 on this tree, covering all integers) the result is one integer and equals the official WBF scale (constant in this checker) '
+        'at both ends.  score_to_imp is decided the same way for every integer score against a grid of 22 scores in both positions.  '
+        'Before that a dense concrete fold (-4300..4300 and huge values; 22x22 score pairs) looks for counterexamples.  Range, '
+        'monotonicity and oddness follow from equality with the scale on every interval.')
     chk.trusted.append('official IMP scale written in sa/rules/c16.py')
     f = Folder(repo, allow_loops=True, max_steps=5_000_000)
     param = fn.args.args[0].arg if len(fn.args.args) == 1 else None
@@ -45,7 +48,8 @@ def run(chk):
     # (dense fold: every integer difference up to beyond the last threshold, both signs, and huge magnitudes; every pair of a
     # score grid through score_to_imp).  A difference whose IMP value is wrong is a definite violation whatever the code looks
     # like; the proof for ALL integers is the use analysis below.
-    dense = sorted(set(range(-4300, 4301)) | {s * k for s in (1, -1) for k in (5000, 7600, 7610, 8000, 10000, 10 ** 6, 10 ** 9, 10 ** 12 + 7, 2 ** 70)})
+    base_ = range(-4300, 4301) if chk.tier != 'quick' else [d + e for d in range(-4300, 4301, 10) for e in (-1, 0, 1)]     # (scores are multiples of 10)
+    dense = sorted(set(base_) | {s * k for s in (1, -1) for k in (5000, 7600, 7610, 8000, 10000, 10 ** 6, 10 ** 9, 10 ** 12 + 7, 2 ** 70)})
     bad0 = None
     n0 = 0
     unsupported = None
@@ -67,7 +71,7 @@ def run(chk):
         chk.fail('C16.R3', w, q, 'point_difference_to_imps differs from the official scale',
                  f'a difference of {bad0[0]} points gives {bad0[1]}; the official scale gives {bad0[2]} IMPs')
     elif unsupported is None:
-        chk.ok('C16.R3', w, f'all {n0} integer differences in [-4300, 4300] and 18 huge ones give the official IMP value')
+        chk.ok('C16.R3', w, f'all {n0} integer differences folded concretely (in [-4300, 4300] and 18 huge ones) give the official IMP value')
     grid = [-7600, -4000, -2220, -1100, -620, -100, -50, -10, 0, 10, 20, 40, 50, 90, 100, 420, 620, 1430, 2000, 3990, 4000, 7600]
     bad1 = None
     if unsupported is None:
@@ -115,109 +119,64 @@ def run(chk):
 
     if counterexample:
         return      # a definite counterexample is reported; the all-integers proof below is moot
-    # ---- R2: the difference is used through comparisons only ------------------------------------------------
-    # taint: names derived from the parameter by abs()/unary minus/plain copy keep the "difference" role;
-    # a comparison result is a boolean (no longer the difference).
-    tainted = {param}
-    changed = True
-    assigns = [n for n in ast.walk(fn) if isinstance(n, (ast.Assign, ast.AnnAssign, ast.AugAssign))]
+    # ---- R2: ALL integers, by abstract interpretation over intervals -----------------------------------------------------------
+    # The function is folded on an interval-abstract difference (fold.IntervalInt); whenever the code compares it with a constant the
+    # interval straddles, the interval is split there and the parts are folded again (fold.partition_fold): the partition refines
+    # itself to exactly the constants the code distinguishes, whatever shape the code has (loop over the table, bisect, chained ifs).
+    # An operation that needs the exact value leaves the abstraction -> analysis error.  On every part the result is one integer,
+    # compared with the official scale at both ends of the part (the scale is monotone, so equal ends = constant on the part).
+    from ..fold import IntervalInt, partition_fold
+    BIG = 10 ** 15
 
-    def is_diff(e):
-        if isinstance(e, ast.Name):
-            return e.id in tainted
-        if isinstance(e, ast.UnaryOp) and isinstance(e.op, ast.USub):
-            return is_diff(e.operand)
-        if isinstance(e, ast.Call) and isinstance(e.func, ast.Name) and e.func.id == 'abs' and len(e.args) == 1:
-            return is_diff(e.args[0])
-        return False
-    while changed:
-        changed = False
-        for a in assigns:
-            val = a.value
-            tg = a.targets[0] if isinstance(a, ast.Assign) else a.target
-            if val is not None and isinstance(tg, ast.Name) and is_diff(val) and tg.id not in tainted:
-                tainted.add(tg.id)
-                changed = True
-    elem_names = set()      # loop variables ranging over the scale table
-    for n in ast.walk(fn):
-        if isinstance(n, ast.For):
-            it = n.iter
-            if isinstance(it, ast.Name) and it.id in tables and isinstance(n.target, ast.Name):
-                elem_names.add(n.target.id)
-            if isinstance(it, ast.Call) and isinstance(it.func, ast.Name) and it.func.id == 'enumerate' and it.args \
-                    and isinstance(it.args[0], ast.Name) and it.args[0].id in tables and isinstance(n.target, ast.Tuple) \
-                    and len(n.target.elts) == 2 and isinstance(n.target.elts[1], ast.Name):
-                elem_names.add(n.target.elts[1].id)
-    breakpoints = {0}
-    for t in used:
-        breakpoints |= set(tables[t])
-    bad_use = None
-    n_cmp = 0
-    for n in ast.walk(fn):
-        if isinstance(n, ast.Name) and n.id in tainted and isinstance(n.ctx, ast.Load):
-            # climb through abs()/-x to the consuming node
-            cur = n
-            par = parent(cur)
-            while (isinstance(par, ast.UnaryOp) and isinstance(par.op, ast.USub)) or \
-                    (isinstance(par, ast.Call) and isinstance(par.func, ast.Name) and par.func.id == 'abs'):
-                cur, par = par, parent(par)
-            if isinstance(par, ast.Compare):
-                n_cmp += 1
-                for o in [par.left] + par.comparators:
-                    if o is cur or is_diff(o):
-                        continue
-                    if isinstance(o, ast.Constant) and isinstance(o.value, int):
-                        breakpoints.add(abs(o.value))
-                    elif isinstance(o, ast.Subscript) and isinstance(o.value, ast.Name) and o.value.id in tables:
-                        pass
-                    elif isinstance(o, ast.Name) and o.id in elem_names:
-                        pass
-                    else:
-                        bad_use = bad_use or f'compared with `{ast.unparse(o)}`'
-                continue
-            if isinstance(par, (ast.Assign, ast.AnnAssign)) and is_diff(par.value):
-                continue
-            bad_use = bad_use or f'`{ast.unparse(par)}`'
-    if bad_use:
-        raise AnalysisError('C16.R2', q, f'the difference is used outside abs()/comparison ({bad_use}): the interval argument does not apply')
-    chk.floor('C16.R2', 'comparisons on the difference', n_cmp, 2)
-    chk.ok('C16.R2', w, f'the difference reaches only abs(), unary minus and {n_cmp} comparisons with integer constants / scale entries')
-
-    # ---- R3: fold on every interval representative ------------------------------------------------------------
-    reps = set()
-    for k in breakpoints:
-        for d in (k - 1, k, k + 1):
-            reps |= {d, -d}
-    reps |= {10 ** 9, -10 ** 9, 5, -5, 4005, -4005}
+    def ends(lo, hi, shift=0):
+        return (-BIG if lo is None else lo + shift), (BIG if hi is None else hi + shift)
+    try:
+        leaves = partition_fold(lambda x: f.call_function('score', 'point_difference_to_imps', x))
+    except Unsupported as e:
+        raise AnalysisError('C16.R2', q, f'the conversion leaves the interval abstraction of the difference: {e}')
+    except FoldRaise as e:
+        chk.fail('C16.R2', w, q, 'point_difference_to_imps raises on a range of differences', f'the conversion raises {e.kind} on a whole range of differences')
+        leaves = []
+    chk.evals(len(leaves))
     first_bad = None
-    nrep = 0
-    for d in sorted(reps):
-        nrep += 1
-        try:
-            got = f.call_function('score', 'point_difference_to_imps', d)
-        except FoldRaise as e:
-            got = f'raises {e.kind}'
-        except Unsupported as e:
-            raise AnalysisError('C16.R3', q, f'function left the foldable subset: {e}')
-        if got != official(d) and first_bad is None:
-            first_bad = (d, got, official(d))
-    chk.evals(nrep)
-    chk.require(first_bad is None, 'C16.R3', w, q, 'point_difference_to_imps on interval representatives',
-                f'the conversion equals the official scale on all {nrep} interval/boundary representatives (hence on every integer)',
-                f'difference {first_bad[0]} gives {first_bad[1]} IMPs, the official scale gives {first_bad[2]}' if first_bad else '')
-    chk.extra['representatives'] = nrep
-    chk.extra['breakpoints'] = len(breakpoints)
+    for lo, hi, r in leaves:
+        a, b = ends(lo, hi)
+        if isinstance(r, IntervalInt) or isinstance(r, bool) or not isinstance(r, int):
+            raise AnalysisError('C16.R2', q, f'on the differences {lo}..{hi} the result is {r!r}, not one integer: the interval argument does not apply')
+        if not (official(a) == official(b) == r) and first_bad is None:
+            d = a if official(a) != r else b
+            first_bad = (lo, hi, r, d, official(d))
+    chk.floor('C16.R2', 'parts of the partition of the integers', len(leaves), 30)
+    chk.require(first_bad is None, 'C16.R2', w, q, 'point_difference_to_imps on every integer (self-refining partition into intervals)',
+                f'the integers fall into {len(leaves)} intervals on each of which the conversion is constant and equal to the official scale '
+                f'(range -24..24, odd, monotone follow)',
+                f'every difference in {first_bad[0]}..{first_bad[1]} gives {first_bad[2]} IMPs; for {first_bad[3]} the official scale gives {first_bad[4]}' if first_bad else '')
+    chk.extra['intervals'] = len(leaves)
 
-    # ---- R4: two-score form ------------------------------------------------------------------------------------
+    # ---- R4: the two-score form, for every first score (all integers) x a grid of second scores, and vice versa -----------------
     w2, q2 = floc(repo, 'score', 'score_to_imp', 'C16.R4')
-    _, fn2 = repo.function('score', 'score_to_imp', 'C16.R4')
-    ps = Summarizer(repo, 'C16.R4').function_paths('score', 'score_to_imp')
-    params = [a.arg for a in fn2.args.args]
-    good = len(ps) == 1 and len(params) == 2 and ps[0].end[0] == 'return' and isinstance(ps[0].end[1], ast.Call) \
-        and ast.unparse(ps[0].end[1].func) == 'point_difference_to_imps' and len(ps[0].end[1].args) == 1 \
-        and not ps[0].end[1].keywords
-    if good:
-        a = affine(ps[0].end[1].args[0])
-        good = a is not None and a == ({params[0]: 1, params[1]: 1}, 0)
-    chk.require(good, 'C16.R4', w2, q2, ast.unparse(fn2.body[-1]),
-                'score_to_imp converts the sum of its two scores', 'score_to_imp does not pass first+second to the scale')
+    bad2 = None
+    n2 = 0
+    pgrid = grid if chk.tier != 'quick' else [-7600, -620, -50, 0, 90, 4000]
+    for fixed in pgrid:
+        for pos in (0, 1):
+            try:
+                lv = partition_fold((lambda x: f.call_function('score', 'score_to_imp', x, fixed)) if pos == 0 else (lambda x: f.call_function('score', 'score_to_imp', fixed, x)))
+            except Unsupported as e:
+                raise AnalysisError('C16.R4', q2, f'score_to_imp leaves the interval abstraction: {e}')
+            except FoldRaise as e:
+                bad2 = bad2 or (fixed, pos, None, None, f'raises {e.kind}', None)
+                continue
+            n2 += len(lv)
+            for lo, hi, r in lv:
+                a, b = ends(lo, hi, fixed)
+                if isinstance(r, IntervalInt) or not isinstance(r, int):
+                    raise AnalysisError('C16.R4', q2, f'score_to_imp gives {r!r} on a range of scores, not one integer')
+                if not (official(a) == official(b) == r) and bad2 is None:
+                    d = a if official(a) != r else b
+                    bad2 = (fixed, pos, lo, hi, r, (d - fixed, official(d)))
+    chk.evals(n2)
+    chk.require(bad2 is None, 'C16.R4', w2, q2, 'score_to_imp = conversion of the sum, for every integer score against a grid of scores',
+                f'for each of {len(pgrid)} fixed scores (both positions) and EVERY integer other score ({n2} intervals) score_to_imp is the official value of the sum',
+                (f'score_to_imp with {"second" if bad2[1] == 0 else "first"} score {bad2[0]} and the other in {bad2[2]}..{bad2[3]} gives {bad2[4]}; '
+                 f'e.g. other = {bad2[5][0]}: the sum is worth {bad2[5][1]} IMPs') if bad2 and bad2[5] else (f'score_to_imp {bad2[4]}' if bad2 else ''))
